@@ -1,6 +1,7 @@
 """C01 - no PFCP datagram can crash or wedge the agent."""
 from props.l1common import *
 from props.l1props import model_correspondence
+from props import c14up4 as U
 import l1
 import l1mut
 import pfcp as P
@@ -8,21 +9,79 @@ import pfcp as P
 TARGETS = ["Props/C01.vo", "Run/Eval_L1.vo"]
 
 
+def up4_histories(rng):
+    """valid histories on the UP4 world (real UP4 plug-in, fake P4Runtime server), end markers disabled and enabled, with
+    modifications that carry the send-end-marker flag; the last four events are the probes"""
+    out = []
+    for em in (False, True, False, True):
+        g = U.GenU(random.Random(rng.getrandbits(64)), l1.default_cfg(end_marker=em))
+        r = g.rng
+        g.setup(0)
+        l = g.est04(0, npairs=1, nqers=r.choice([0, 1, 2]), gnb=U.GNBS[0], dl_action=2, choose=r.random() < 0.5, chv4=r.random() < 0.5)
+        for _ in range(r.choice([1, 3])):
+            g.upd_far_em(l, gnb=r.choice([None, U.GNBS[1], U.GNBS[2]]), flags=r.choice([2, 2, 3, 6]), repeat=r.random() < 0.3)
+        g.upd_far_unknown_em(l)
+        g.upd_far_em(l, flags=None)
+        g.heartbeat(0)
+        g.setup(1)
+        l2 = g.est04(1, npairs=1, nqers=1, gnb=U.GNBS[3], dl_action=2)
+        g.delete(l2)
+        out.append(U.finish(g, U.up4_cfg(r), name=f"up4-valid-history/end_marker={em}"))
+    return out
+
+
+def up4_leg(ck, binary, rng, dist, cases=None):
+    cases = up4_histories(rng) if cases is None else cases
+    try:
+        outs = U.run_up4(binary, [c["input"] for c in cases], tag="c01u")
+    except HarnessError as e:
+        ck.fail("up4:harness-died", str(e)[-600:], {"leg": "up4"})
+        return
+    for c, o in zip(cases, outs):
+        ck.count(["up4", c["name"]] + [e.get("hex", e["k"]) for e in c["input"]["events"]], True)
+        res = []
+        d = U.died(o)
+        if d:
+            res.append(d)
+        else:
+            obs = o["obs"]
+            for i, (it, ob) in enumerate(zip(c["intents"], obs)):
+                if it.get("wf") and it.get("req") in P.RESPONSE_OF and len(l1.replies_of(ob)) != 1:
+                    res.append(("up4:request-not-answered", f"event {i} ({it.get('op')}/{it.get('kind', '')}): a valid request got {len(l1.replies_of(ob))} responses", i))
+                    break
+            if not res and len(obs) < len(c["input"]["events"]):
+                res.append(("up4:history-cut", "harness stopped early", len(obs)))
+        for sig, msg, i in res[:1]:
+            ob = o.get("obs", [])
+            ck.fail(sig, f"{c['name']}: {msg}", {"leg": "up4", "name": c["name"], "input": c["input"], "intents": c["intents"], "event": i,
+                                                  "impl_event": {k: v for k, v in (ob[i] if i < len(ob) else {}).items() if k in ("dp", "replies", "blocked", "panic", "frame")}})
+        dist[f"{c['name']}:{'ok' if not res else 'failed'}"] = dist.get(f"{c['name']}:{'ok' if not res else 'failed'}", 0) + 1
+
+
 def run(tier, seed, replay=None):
     ck = Check("C01", tier, seed)
-    ck.trusted = L1_TRUSTED
+    ck.trusted = L1_TRUSTED + ["UP4 leg: harness/go/verif_c14_test.go (real UP4 plug-in behind the L1 driver, handler watchdog) and harness/go/verif_p4rt_test.go "
+                               "(fake P4Runtime server); tools/props/c14up4.py (histories inside the UP4 envelope)"]
     ck.assumptions = ["a panic inside a handler is recovered by the harness and ends the history (production has no recover: the process dies)",
                       "'blocked' = HandlePFCPMsg did not return within 8 s"]
     ck.rule = ("every IE-level mutation (drop, duplicate, empty, retype, truncate by 1 / to half, grow, IPv6-only, flow-description token "
                "deletions and truncations) at every IE position of one valid instance of each of the 10 dispatched message types, in 6 "
                "association/session states (exhaustive over kind x position x state, about 11 000 histories, in both tiers), plus garbage "
                "datagrams (random bytes, bit flips, truncations, corrupted length fields); each followed by heartbeats on the same and on "
-               "another association and a complete establish/delete on another association. distinct = (state, message, mutation kind, IE path)")
+               "another association and a complete establish/delete on another association. distinct = (state, message, mutation kind, IE path); "
+               "UP4 leg: 4 valid histories on the real UP4 plug-in (end markers disabled / enabled) whose modifications carry the send-end-marker flag, "
+               "followed by heartbeat, a second association, establish, delete")
     ck.prove(TARGETS)
     rng = rng_for(seed, "C01")
     cases = l1mut.injected_cases(rng, tier) + l1mut.garbage_cases(rng, 400 if tier == "quick" else 6000)
     if replay:
         rp = json.load(open(replay))["case"]
+        if rp.get("leg") == "up4":
+            try:
+                up4_leg(ck, build_harness(), rng, {}, cases=[rp])
+            except HarnessError as e:
+                ck.tie("harness builds and runs against the current tree", False, str(e)[-1500:])
+            return ck.finish()
         cases = [(("replay",), rp["input"], rp["intents"], rp.get("inject", 0), rp.get("probe_start", 0))]
     try:
         binary = build_harness()
@@ -61,6 +120,8 @@ def run(tier, seed, replay=None):
     # "in any association or session state": a state reached by more requests than any queue inside the agent holds
     # (end-marker queue 1024, heartbeat reset queue 100). The requests are valid; the last events are probes.
     run_soak(ck, binary, rng, lambda c, it, ob: l1.mon_c01(c, it, ob), dist)
+    if not replay:
+        up4_leg(ck, binary, rng, dist)
     # the model takes the datagram as go-pfcp decodes it, so it is evaluated on mutated and garbage datagrams alike
     sub = list(zip([c[1] for c in cases], obs))
     rng.shuffle(sub)
